@@ -22,8 +22,29 @@ def project(evs, ost, wfout=None):
     Returns the list of abstract events."""
     out = []
     WFOUT = DEFAULT_WFOUT if wfout is None else wfout
-    for e in evs:
+    # A stop condition takes effect when the step's context is cancelled (SCtx cancelStep), which happens inside the
+    # ProvideStageInput call announced by the run loop's Provide event - possibly a while later, when the step lock is
+    # free.  When the same goroutine logs that cancellation next, IT is the witness of handing over the cancelled-stage
+    # input, not the announcement.
+    defer_to = {}      # index of a Provide(cancelled) event -> index of the SCtx(cancelStep) that witnesses it
+    for i, e in enumerate(evs):
+        if e['ev'] == 'Provide' and e.get('stage') == 'cancelled':
+            for j in range(i + 1, len(evs)):
+                f = evs[j]
+                if f.get('g') != e.get('g'):
+                    continue
+                if f['ev'] in ('SProv', 'SSig'):
+                    continue
+                if f['ev'] == 'SCtx' and f.get('why') == 'cancelStep':
+                    defer_to[i] = j
+                break
+    witness = {j: i for i, j in defer_to.items()}
+    for idx, e in enumerate(evs):
         k = e['ev']
+        if idx in defer_to:
+            continue
+        if idx in witness:
+            out.append({'k': 'Prov', 's': evs[witness[idx]]['step'], 'st': 'cancelled', 'state': 'nil'})
         s = e.get('step') or ost.get(e.get('obj'))
         if k == 'SSet':
             out.append({'k': 'Set', 's': s, 'stage': e['stage'], 'state': e['state']})
